@@ -145,6 +145,9 @@ class Ev:
                 except Unx:
                     pass
             return ("some", "?")
+        if k == "Binary" and e["op"] in ("Sub", "BitOr", "BitAnd"):
+            # set-valued expressions (`(<if chain>) - Register::const_zero_set()`): keep the structure
+            return ("bin", e["op"], self.body(e["a"], payload, loc_), self.body(e["b"], payload, loc_))
         try:
             return self.truth(e, payload, loc_)
         except Unx:
